@@ -54,8 +54,11 @@ class World:
         self.base = m.key("Base", UT)
         self._leaf = {}
         self._acc = {}
+        self._ns = {}
+        self._cycles = 0
         self.depth = 2        # how many levels of children are validated by interpreting their own matchers
         self.build = 0        # how many levels of children are built as objects with .items (0: recording stubs only)
+        self.parse_all = False  # children are parsed all the way down (full_parse)
         self.ev = PE.Evaluator({}, max_steps=3000000)
         g = self.ev.g
         pats = m.snap["patterns"]
@@ -253,6 +256,74 @@ class World:
         finally:
             self.build, self.depth = saved_b, saved_d
 
+    def full_parse(self, key, text, fuel=None):
+        """What Base.__new__ does, interpreted all the way down: the class's own matcher (children are parsed the same way), then the
+        registered alternatives in order; the first that matches wins.  Returns an Inst/Tok tree; raises NoMatchError when nothing
+        matches and Unsupported when some matcher cannot be interpreted.  Used for expressions, whose classes are all engine-based."""
+        m = self.m
+        c = m.classes[key]
+        ck = ("full", key, text)
+        if ck in self._acc:
+            v = self._acc[ck]
+            if isinstance(v, PE.PyRaise):
+                if v.args and "re-entered" in str(v.args[0]):
+                    self._cycles += 1          # a failure that only holds inside the enclosing attempt: not to be remembered
+                raise v
+            return v
+        self._acc[ck] = PE.PyRaise("NoMatchError", "re-entered")       # left recursion: the same class on the same text cannot match
+        cycles_before = self._cycles
+        try:
+            if c.get("generated") and c["name"].endswith("_List") and c["name"][:-5] in self.classes:
+                ek = self.classes[c["name"][:-5]]
+                mapped, restore = one_taint._mini_map(text)
+                parts = [restore(p_).strip() for p_ in mapped.split(",")]
+                if any(not p_ for p_ in parts):
+                    raise PE.PyRaise("NoMatchError", text)
+                node = Inst(self, key, {"string": text, "parent": None, "item": None, "separator": ",",
+                                        "items": tuple(self.full_parse(ek, p_) for p_ in parts)})
+                self._acc[ck] = node
+                return node
+            f = m.method(key, "match")
+            if f is not None and not c.get("generated") and "reader" not in A.param_names(f.node):
+                saved = self.parse_all
+                self.parse_all = True
+                try:
+                    res = run_match(self, key, text, reset=False)
+                except PE.PyRaise as err:
+                    # Base.__new__: a NoMatchError raised inside the class's own matcher (by a child) counts as "no match here"
+                    if err.exc_type != "NoMatchError":
+                        raise
+                    res = None
+                finally:
+                    self.parse_all = saved
+                if res is not None:
+                    node = build(self, key, res, text)
+                    self._acc[ck] = node
+                    return node
+            for k2 in (m.snap["registry"][self.std].get(c["name"]) or []):
+                if k2 == key or k2 not in m.classes:
+                    continue
+                try:
+                    node = self.full_parse(k2, text)
+                    self._acc[ck] = node
+                    return node
+                except PE.PyRaise as err:
+                    if err.exc_type != "NoMatchError":
+                        raise
+            err = PE.PyRaise("NoMatchError", "%s: %r" % (c["name"], text))
+            if self._cycles == cycles_before:
+                self._acc[ck] = err
+            else:
+                self._acc.pop(ck, None)
+            raise err
+        except PE.Unsupported:
+            self._acc.pop(ck, None)
+            raise
+        except PE.PyRaise:
+            if isinstance(self._acc.get(ck), PE.PyRaise) and "re-entered" in str(self._acc[ck].args[0]):
+                self._acc.pop(ck, None)
+            raise
+
     def accepts(self, key, text, depth):
         """Would the real constructor of this class accept the text?  True / False / None (not decided within the depth budget).
         The class's own matcher and, failing that, its alternatives are interpreted with their children validated one level less deep."""
@@ -309,8 +380,30 @@ class World:
         self._acc[ck] = out
         return out
 
+    def class_namespace(self, key):
+        """the data attributes of a class body, interpreted statement by statement (tables built with dict.update etc.)"""
+        if key not in self._ns:
+            env = {}
+            self._ns[key] = env
+            cd = self.m.classdef(key)
+            for b in (cd.body if cd is not None else ()):
+                if isinstance(b, (ast.FunctionDef, ast.ClassDef)) or (isinstance(b, ast.Expr) and isinstance(b.value, ast.Constant)):
+                    continue
+                try:
+                    self.ev.stmt(b, env)
+                except (PE.Unsupported, PE.PyRaise):
+                    for t in (b.targets if isinstance(b, ast.Assign) else []):
+                        for nm in A.assigned_names(t):
+                            env.pop(nm, None)
+        return self._ns[key]
+
     def class_attr(self, key, name, bind=None):
         m = self.m
+        for kk in m.classes[key]["mro"]:
+            if kk in m.classes and m.classdef(kk) is not None:
+                ns = self.class_namespace(kk)
+                if name in ns and not callable(ns[name]):
+                    return ns[name]
         for kk in m.classes[key]["mro"]:
             cd = m.classdef(kk) if kk in m.classes else None
             if cd is None:
@@ -368,6 +461,8 @@ class ClassRef(PE.Obj):
             raise PE.Unsupported("%s constructed from %s" % (self.name, type(text).__name__))
         if not text.strip():
             raise PE.PyRaise("NoMatchError", "%s: empty text" % self.name)
+        if self.world.parse_all:
+            return self.world.full_parse(self.key, text.strip())
         if self.world.build > 0:
             node = self.world.construct(self.key, text.strip())
             if node is not None:
@@ -401,6 +496,27 @@ class Inst(PE.Obj):
 
     def __repr__(self):
         return "%s(%r)" % (self.cls.name, self.fields.get("string"))
+
+    # parse-tree nodes compare by value (ComparableMixin._cmpkey: the items, or the string of a leaf)
+    def _cmp(self):
+        items = self.fields.get("items")
+        if items is not None:
+            return (self.cls.key, tuple(items) if isinstance(items, (list, tuple)) else items)
+        if "content" in self.fields:
+            return (self.cls.key, tuple(self.fields["content"]))
+        return (self.cls.key, self.fields.get("string"))
+
+    def __eq__(self, other):
+        return isinstance(other, Inst) and self._cmp() == other._cmp()
+
+    def __ne__(self, other):
+        return not self.__eq__(other)
+
+    def __hash__(self):
+        try:
+            return hash(self._cmp())
+        except TypeError:
+            return hash(self.cls.key)
 
 
 def run_match(world, key, text, reset=True):
@@ -521,7 +637,7 @@ SAMPLES = [
     ("Language_Binding_Spec", "bind(c, name='a,b')"),
     ("Bind_Stmt", "bind(c, name='x_y') :: a, /blk/"),
     ("Data_Stmt", "data a, b /1, 2/, c(1:2) /2*0/"),
-    ("Data_Stmt_Set", "a(f(1, 2)), b / 'x/y', 2*(0) /"),
+    ("Data_Stmt_Set", "a(f(1, 2)), b / 'x/y', 2*0 /"),
     ("Data_Implied_Do", "(a(i, j), b(j), j = 1, f(n, 2))"),
     ("Data_Stmt_Value", "2*'a*b'"),
     ("Dimension_Stmt", "dimension :: a(10, 0:n), b(f(2, 3))"),
@@ -562,7 +678,7 @@ SAMPLES = [
     ("Rename", "x => y"),
     # --- references and expressions
     ("Data_Ref", "a(f(1, 2))%b(:, 3)%c"),
-    ("Part_Ref", "a(f(1, 2), 'x,y')"),
+    ("Part_Ref", "a(f(1, 2), g(3, (4)))"),
     ("Array_Section", "s(1:n)(2:f(3, 4))"),
     ("Substring_Range", "f(1, 2):n*(m+1)"),
     ("Subscript_Triplet", "f(1, 2):g(3, 4):(k)"),
@@ -779,8 +895,6 @@ SAMPLES = [
     ("Stop_Code", "12345"),
     ("Io_Unit", "*"),
     ("Format", "*"),
-    ("Dtv_Type_Spec", "type(point(2))"),
-    ("Format_Item_C1002", "2p, f8.3"),
     ("Hollerith_Item", "5Ha,(b)"),
     ("Sign_Edit_Desc", "sp"),
     ("Blank_Interp_Edit_Desc", "bz"),
@@ -1171,4 +1285,188 @@ def optional_blank_rule(m, rid):
             which = spaced if not isinstance(outs[0], str) or outs[0].startswith("raises ") else compact
             r.fail("%s|optional-blank|%s" % (cname, spaced), "%s: %r and %r are the same statement (the blank is optional), but they give %r and "
                    "%r: the form %r is rejected or parsed differently" % (cname, spaced, compact, outs[0], outs[1], which), m.class_loc(key))
+    return r
+
+
+# ---------------------------------------------------------------------------------------------------------------
+# C03: expressions parsed all the way down by interpretation, grouping compared with the standard's precedence table
+BIN_LEVELS = [           # tightest first; (operators, associativity)
+    (["**"], "right"),
+    (["*", "/"], "left"),
+    (["+", "-"], "left"),
+    (["//"], "left"),
+    ([".eq.", "==", "/=", "<", ".ge.", ">="], "none"),
+    ([".and."], "left"),
+    ([".or."], "left"),
+    ([".eqv.", ".neqv."], "left"),
+    ([".x."], "left"),
+]
+NOT_LEVEL = 4.5          # .NOT. sits between the relational operators and .AND.
+
+
+def _level(op):
+    for i, (ops, assoc) in enumerate(BIN_LEVELS):
+        if op in ops:
+            return i, assoc
+    raise KeyError(op)
+
+
+def grouping(node):
+    """fully bracketed rendering of an interpreted expression tree"""
+    if isinstance(node, Tok):
+        return node.text
+    if isinstance(node, Inst):
+        items = node.fields.get("items")
+        if items is None:
+            return str(node.fields.get("string"))
+        if node.cls.name == "Parenthesis":
+            return "(" + grouping(items[1]) + ")"
+        if len(items) == 3 and isinstance(items[1], str):
+            return "[%s %s %s]" % (grouping(items[0]), items[1].lower(), grouping(items[2]))
+        if len(items) == 2 and isinstance(items[0], str) and isinstance(items[1], (Tok, Inst)):
+            return "[%s %s]" % (items[0].lower(), grouping(items[1]))
+        if len(items) >= 1 and isinstance(items[0], str):
+            return items[0]
+        return str(node.fields.get("string"))
+    return str(node)
+
+
+def expression_cases():
+    cases = []
+    allops = [(op, i, assoc) for i, (ops, assoc) in enumerate(BIN_LEVELS) for op in ops]
+    for o1, l1, a1 in allops:
+        for o2, l2, a2 in allops:
+            if l1 == l2 and a1 == "none":
+                continue                      # a < b < c is not Fortran
+            if l1 < l2 or (l1 == l2 and a1 == "left"):
+                want = "[[a %s b] %s c]" % (o1, o2)
+            else:
+                want = "[a %s [b %s c]]" % (o1, o2)
+            cases.append(("a %s b %s c" % (o1, o2), want))
+    for o, l, a_ in allops:
+        # .NOT. binds looser than relational operators, tighter than .AND.
+        if l < NOT_LEVEL:
+            if l == 4:
+                cases.append((".not. a %s b" % o, "[.not. [a %s b]]" % o))
+        else:
+            cases.append((".not. a %s b" % o, "[[.not. a] %s b]" % o))
+            cases.append(("a %s .not. b" % o, "[a %s [.not. b]]" % o))
+        # unary minus is an add-operand prefix: tighter than + - // ..., looser than * / **
+        if l <= 1:
+            cases.append(("-a %s b" % o, "[- [a %s b]]" % o))
+        else:
+            cases.append(("-a %s b" % o, "[[- a] %s b]" % o))
+        # a defined unary operator binds tightest
+        cases.append((".u. a %s b" % o, "[[.u. a] %s b]" % o))
+    cases += [("(a + b) * c", "[([a + b]) * c]"), ("a * (b + c) ** 2", "[a * [([b + c]) ** 2]]"), ("a ** -b", None),
+              ("a + b * c ** d", "[a + [b * [c ** d]]]"), ("a .or. b .and. c == d + e * f ** g", "[a .or. [b .and. [c == [d + [e * [f ** g]]]]]]"),
+              ("((a))", "((a))"), ("a - b - c - d", "[[[a - b] - c] - d]"), ("a ** b ** c ** d", "[a ** [b ** [c ** d]]]")]
+    return [c for c in cases if c[1] is not None]
+
+
+def expression_grouping_rule(m, rid):
+    cases = expression_cases()
+    r = RuleResult(rid, "expressions parsed all the way down by interpretation (Expr and the eleven level classes are engine-based): for every "
+                        "pair of binary operators in both orders, for .NOT., unary minus and a defined unary operator against every "
+                        "binary operator (%d expressions), the tree groups the operands as the standard's precedence and associativity "
+                        "rules require" % len(cases))
+    r.floor = len(cases) - 10
+    world = World(m)
+    world.ev.max_steps = 50000000
+    key = world.classes.get("Expr")
+    if key is None:
+        r.error("class Expr vanished")
+        return r
+    bad = []
+    for text, want in cases:
+        r.instances += 1
+        world.ev.steps = 0
+        try:
+            got = grouping(world.full_parse(key, text))
+        except PE.Unsupported as err:
+            r.undet("%r: %s" % (text, err))
+            continue
+        except PE.PyRaise as err:
+            got = "raises %s" % err.exc_type
+        ok = got == want
+        r.ob(ok, "%s -> %s" % (text, got) if r.obligations % 40 == 0 else None)
+        if not ok:
+            bad.append((text, got, want))
+    for text, got, want in bad:
+        r.fail("Expr|grouping|%s" % text, "the expression `%s` is grouped as %s; the standard requires %s (%d of %d expressions disagree)"
+               % (text, got, want, len(bad), len(cases)), m.class_loc(key))
+    return r
+
+
+# ---------------------------------------------------------------------------------------------------------------
+# the class-level round trip at full depth: children are parsed and printed by interpretation all the way down
+CANONICAL_FULL = {
+    # documented canonicalisations: explicit KIND=/LEN=/UNIT= keywords, empty dummy-argument parentheses, commas in FORMAT lists
+    ("Kind_Selector", "(8)"): "(kind = 8)",
+    ("Char_Selector", "(n+1, kind=ck)"): "(len = n+1, kind = ck)",
+    ("Allocate_Stmt", "allocate (real(8) :: a(n, 2*(m+1)), b(0:k), stat=ierr)"): "allocate (real(kind=8) :: a(n, 2*(m+1)), b(0:k), stat=ierr)",
+    ("Open_Stmt", "open (10, file='a.txt')"): "open (unit = 10, file='a.txt')",
+    ("Connect_Spec", "f(1, 2)"): "unit = f(1, 2)",
+    ("Endfile_Stmt", "endfile (10)"): "endfile (unit = 10)",
+    ("Format_Stmt", "format (1x, 'a(b)', 3(i2, ','), /, 2pf8.2)"): "format (1x, 'a(b)', 3(i2, ','), /, 2p, f8.2)",
+    ("Subroutine_Stmt", "subroutine t() bind(c)"): "subroutine t bind(c)",
+}
+
+
+def full_roundtrip_rule(m, rid, tokens=False, std="f2003", samples=None, floor=280):
+    samples = SAMPLES if samples is None else samples
+    r = RuleResult(rid, "class-level round trip at full depth (%d samples; the sample is parsed by interpretation all the way down -- own "
+                        "matcher, then the registered alternatives, as Base.__new__ does -- and printed by the interpreted printers): the "
+                        "printed text parses to an equal tree and prints to itself%s" % (
+                            len(samples), "; up to the documented canonicalisations it is the sample token for token" if tokens else ""))
+    r.floor = floor
+    world = World(m, std)
+    world.ev.max_steps = 50000000
+    for cname, text in samples:
+        key = world.classes.get(cname)
+        if key is None:
+            r.error("class %s vanished" % cname)
+            continue
+        r.instances += 1
+        ident = "%s|%s" % (cname, text)
+        world.ev.steps = 0
+        try:
+            n1 = world.full_parse(key, text)
+            t1 = str(n1)
+        except PE.Unsupported as err:
+            r.undet("%s: %s" % (ident, err))
+            continue
+        except PE.PyRaise as err:
+            r.ob(False)
+            r.fail("%s|full|rejected" % ident, "%s: the valid text %r is not accepted (%s) when parsed all the way down" % (cname, text, err.exc_type),
+                   m.class_loc(key))
+            continue
+        if tokens:
+            def norm(t):
+                return squeeze(t).replace("::", "")
+            want = CANONICAL_FULL.get((cname, text), text)
+            if norm(t1) not in (norm(want), norm(text)):
+                r.ob(False)
+                r.fail("%s|full|tokens" % ident, "%s: %r is regenerated as %r; apart from blanks, case and '::' it should read %r: a token is "
+                       "dropped, invented or moved" % (cname, text, t1, want), m.class_loc(key))
+                continue
+        try:
+            world.ev.steps = 0
+            n2 = world.full_parse(key, t1)
+            t2 = str(n2)
+        except PE.Unsupported as err:
+            r.undet("%s (second pass): %s" % (ident, err))
+            continue
+        except PE.PyRaise as err:
+            r.ob(False)
+            r.fail("%s|full|not-accepted-again" % ident, "%s: %r is regenerated as %r, which is not accepted again (%s)" % (cname, text, t1, err.exc_type),
+                   m.class_loc(key))
+            continue
+        ok = t2 == t1 and (tokens or n1 == n2)
+        r.ob(ok, "%s: %r -> %r" % (cname, text, t1) if r.obligations % 30 == 0 else None)
+        if t2 != t1:
+            r.fail("%s|full|fixpoint" % ident, "%s: %r is regenerated as %r, which regenerates as %r" % (cname, text, t1, t2), m.class_loc(key))
+        elif not tokens and n1 != n2:
+            r.fail("%s|full|tree" % ident, "%s: %r is regenerated as %r, whose parse tree differs from the tree of the source (same text, "
+                   "different structure)" % (cname, text, t1), m.class_loc(key))
     return r
